@@ -193,7 +193,7 @@ FormStage(x) == IF ~IsPW /\ cls.div /\ x.m = 0 /\ "zerodiv" \notin Fixed THEN "m
 \* pieces of a (Exp)PiecewiseConvex without looking at its sign
 Unchecked(op, o) == /\ fe = "dro" /\ IsPW /\ "pwcheck" \notin Fixed
                     /\ \/ (op \in {"LeL", "GeL"} /\ o = "t")
-                       \/ ObjType(op)
+                       \/ (ObjType(op) /\ "lateobj" \notin Fixed)    \* repaired min()/max() test every family
 
 \* expression whose sign is inspected, per written form:
 \*   e <= o : left = self - o            (Convex/PiecewiseConvex/PerspConvex.__le__, ExpPiecewiseConvex.__le__)
